@@ -123,8 +123,11 @@ func (e *Encoder) WriteData(data interface{}) (int, error) {
 		value := data.(int32)
 		return e.writeInt(value)
 	case reflect.Int: // as int
-		value := int32(data.(int))
-		return e.writeInt(value)
+		i := data.(int)
+		if int(int32(i)) != i {
+			return 0, newCodecError("WriteData", "int value %d out of the 32-bit range of the hessian int", i)
+		}
+		return e.writeInt(int32(i))
 	case reflect.Uint8: // as int
 		value := int32(data.(uint8))
 		return e.writeInt(value)
